@@ -138,3 +138,53 @@ func ZZ_C16_generator_history() {
 		zz.Assert(zz.LockState(&gen.mu) == 0, "the generator's mutex is released on return")
 	}
 }
+
+// C16(d), interleaving: everything the generator decides is decided under its
+// mutex.  While request A waits for the mutex another request with the same
+// parameters completes a GenerateKey (takes the put-back token) or a PutBack
+// (returns another token): A must act on the state it finds *after* acquiring
+// the mutex - two requests in flight never share a token and a token put back
+// meanwhile is not lost.
+// zz:noreplay the other thread's step is injected by the engine at the moment the mutex is acquired
+func ZZ_C16_generator_interleaved() {
+	gen := zzGen()
+	h := "h1"
+	t1 := gen.GenerateKey(h)
+	gen.PutBack(h, t1) // the call failed: its token is available for the retry
+	other := zz.Fork("other.thread", 3) // 0 nothing, 1 a same-parameter GenerateKey ran first, 2 a PutBack of another token ran first
+	var tB string
+	first := true
+	zz.OnLock(&gen.mu, func() {
+		if !first {
+			return
+		}
+		first = false
+		switch other {
+		case 1:
+			// what GenerateKey(h) of the other thread does to the shared state
+			v, _ := gen.cache.Get(h)
+			ids := v.([]string)
+			tB = ids[len(ids)-1]
+			if len(ids) == 1 {
+				gen.cache.Remove(h)
+			} else {
+				gen.cache.Add(h, ids[:len(ids)-1])
+			}
+		case 2:
+			v, _ := gen.cache.Get(h)
+			gen.cache.Add(h, append(append([]string(nil), v.([]string)...), "t-other"))
+		}
+	})
+	tA := gen.GenerateKey(h)
+	zz.OnLock(&gen.mu, nil)
+	zz.Assert(tA != "", "a token is always handed out")
+	switch other {
+	case 0:
+		zz.Assert(tA == t1, "the retry reuses the token that was put back")
+	case 1:
+		zz.Assert(tB == t1 && tA != tB, "two requests in flight at the same time never share a token")
+	case 2:
+		t3 := gen.GenerateKey(h)
+		zz.Assert(tA != t3 && (tA == "t-other" || tA == t1) && (t3 == "t-other" || t3 == t1), "a token put back while another request waits for the mutex is not lost: both put-back tokens are handed out again, each once")
+	}
+}
